@@ -166,7 +166,11 @@ func build(rc recipe, mat *material) (w *world, err error) {
 	for _, b := range mat.baseSK {
 		sk, err := crypto.DecodePrivateKey(crypto.BLSBLS12381, b)
 		must(err)
-		pk, err := crypto.DecodePublicKey(crypto.BLSBLS12381, sk.PublicKey().Encode())
+		// the public key is derived through a throw-away second object: the private key object of
+		// the world has never had PublicKey() called on it (its lazily filled cache is empty)
+		tmp, err := crypto.DecodePrivateKey(crypto.BLSBLS12381, b)
+		must(err)
+		pk, err := crypto.DecodePublicKey(crypto.BLSBLS12381, tmp.PublicKey().Encode())
 		must(err)
 		w.sks, w.pks = append(w.sks, sk), append(w.pks, pk)
 	}
@@ -301,7 +305,9 @@ func build(rc recipe, mat *material) (w *world, err error) {
 	for k, alg := range []crypto.SigningAlgorithm{crypto.ECDSAP256, crypto.ECDSASecp256k1} {
 		sk, err := crypto.DecodePrivateKey(alg, mat.ecdsaSK[k])
 		must(err)
-		pk, err := crypto.DecodePublicKey(alg, sk.PublicKey().Encode())
+		tmp, err := crypto.DecodePrivateKey(alg, mat.ecdsaSK[k])
+		must(err)
+		pk, err := crypto.DecodePublicKey(alg, tmp.PublicKey().Encode())
 		must(err)
 		if rc.ecdsaFromSK[k] {
 			// the object PrivateKey.PublicKey() hands out (the lazily cached getter itself is not
